@@ -97,6 +97,7 @@ struct Lattice {
 struct KeyMeta {
     size_t n = 0;
     int threads = 1;
+    int procs = 64;                  ///< value reported by omp_get_num_procs() during this case
     size_t chunks = 1;
     std::vector<size_t> seams;       ///< start positions of chunks 1..c-1 (build is chunked iff chunks > 1)
     std::vector<size_t> block_starts;
@@ -111,9 +112,13 @@ struct KeyMeta {
     std::string recipe;              ///< textual recipe
 };
 
-/// Number of construction chunks make_segmentation_par will use (harness pins omp_get_num_procs() to 64).
+/// What the harness' definition of omp_get_num_procs() returns (it pre-empts libgomp's): 64 most of the time, so that 17..20 threads
+/// give 17..20 chunks on a 16-core box, and occasionally fewer processors than threads (the library must take the minimum of both).
+inline int g_fake_procs = 64;
+
+/// Number of construction chunks make_segmentation_par will use.
 inline size_t chunk_count(size_t n, int threads) {
-    int par = std::min(std::min(64, threads), 20);
+    int par = std::min(std::min(g_fake_procs, threads), 20);
     if (par == 1 || n < (size_t(1) << 15)) return 1;
     return (size_t) par;
 }
@@ -128,6 +133,8 @@ struct GenOpts {
     bool smooth_curves = false;    ///< segmentation engines: 1 array in 12 (size hint >= 60) is a smooth convex / concave curve x_i = A*i + C*i^p tuned to stay
                                    ///< within a fraction of epsilon of a line: the builder's convex hulls then keep (almost) every point
     bool pow2_sizes = false;       ///< 1 array in 30 has exactly 2^k - 1, 2^k or 2^k + 1 keys, k = 10..19 (block-wise copy / chunk arithmetic edges)
+    bool mixed_runs = false;       ///< Compressed: about 1 case in 250: >= 10^5 three-key segments followed by thousands of long linear runs (one long
+                                   ///< segment each): the intercepts' bitvector gets sparse stretches after a dense prefix (select long superblocks)
     bool force_bimodal = false;    ///< C19: the bimodal class unconditionally (a large destination object)
     bool ef_bimodal = false;       ///< Elias-Fano: about 1 case in 250: >= 10^5 minimal segments packed into a tiny part of a huge key space (select long-superblock path)
     bool allow_giant = false;      ///< about 1 case in 400: n around / above 2^24 built from <= 300 distinct keys with huge duplicate runs (ranks > 2^24)
@@ -135,6 +142,7 @@ struct GenOpts {
     bool pow2_span_edge = false; ///< Elias-Fano: 1/4 of the arrays end so that (last segment key - first key) is 2^k-3 .. 2^k (universe-size edge)
     const std::string *xkeys = nullptr;    ///< explicit keys from a replay file (run-length text), overrides the recipe
     const std::string *xthreads = nullptr; ///< explicit thread count from a replay file
+    const std::string *xprocs = nullptr;   ///< explicit processor count from a replay file
 };
 
 template<typename K>
@@ -179,6 +187,7 @@ std::vector<K> gen_keys(TapeReader &t, const GenOpts &o, KeyMeta &meta) {
     const Lattice<K> lat = Lattice<K>::make(t);
     std::ostringstream rec;
     const size_t eps = o.eps;
+    g_fake_procs = 64; // the special classes below keep the default; the ordinary path draws a value
 
     // ---- "bimodal" class for Elias-Fano: a cluster of g-key groups separated by wildly varying jumps (=> minimal segments) followed by a
     //      sparse tail that makes the universe - and so the bucket width of the code - astronomically larger than the cluster
@@ -265,6 +274,53 @@ std::vector<K> gen_keys(TapeReader &t, const GenOpts &o, KeyMeta &meta) {
         return keys;
     }
 
+    // ---- "mixed runs" class
+    if (o.mixed_runs && !o.xkeys && sizeof(K) >= 4 && !std::is_floating_point_v<K> && o.size_hint >= 96 && t.chance(1, 6)) {
+        size_t na = 250000 + t.below(600000), runs = 4200 + t.below(2500), len = 250 + t.below(400), nb = t.below(300000);
+        unsigned gb = 4 + (unsigned) t.below(8);
+        meta.threads = o.allow_threads ? 1 + (int) t.below(20) : 1;
+        SplitMix pr(t.bits(64));
+        std::vector<K> keys;
+        keys.reserve(na + runs * len + nb + 8);
+        i128 cur = lat.lo + (i128) t.below(1000);
+        bool full = false;
+        auto noisy = [&](size_t cnt) {
+            for (size_t i = 0; i < cnt && !full; ++i) {
+                i128 step = 1 + (i128) (pr.next() & ((uint64_t(1) << pr.below(gb + 1)) - 1));
+                if (lat.hi - cur < step) {
+                    full = true;
+                    break;
+                }
+                cur += step;
+                keys.push_back(lat.to_key(cur));
+            }
+        };
+        keys.push_back(lat.to_key(cur));
+        noisy(na);
+        meta.block_starts.push_back(keys.size());
+        for (size_t r = 0; r < runs && !full; ++r) {
+            i128 stride = 1 + (i128) pr.below(8), jump = 1 + (i128) pr.below(5000);
+            if (lat.hi - cur < jump + stride * (i128) len) {
+                full = true;
+                break;
+            }
+            cur += jump;
+            for (size_t i = 0; i < len; ++i) keys.push_back(lat.to_key(cur + stride * (i128) i));
+            cur += stride * (i128) (len - 1);
+        }
+        meta.block_starts.push_back(keys.size());
+        noisy(nb);
+        meta.n = keys.size();
+        meta.size_class = "mixed_runs";
+        meta.chunks = chunk_count(meta.n, meta.threads);
+        for (size_t i = 1; i < meta.chunks; ++i) meta.seams.push_back(i * (meta.n / meta.chunks));
+        meta.query_seed = t.bits(64);
+        rec << "class=mixed_runs noisy=" << na << " runs=" << runs << "x" << len << " noisy=" << nb << " threads=" << meta.threads;
+        meta.recipe = rec.str();
+        keys.shrink_to_fit();
+        return keys;
+    }
+
     // ---- "giant" class: ranks beyond 2^24 (where a float can no longer hold a rank exactly) at the price of a few distinct keys
     if (o.allow_giant && !o.xkeys && sizeof(K) <= 4 && o.size_hint >= 98 && t.chance(1, 8)) {
         size_t n = (size_t(1) << 24) - 64 + t.below(size_t(1) << 22);
@@ -338,7 +394,13 @@ std::vector<K> gen_keys(TapeReader &t, const GenOpts &o, KeyMeta &meta) {
     }
     target = std::min(target, o.max_n);
     meta.threads = o.allow_threads ? 1 + (int) t.below(20) : 1;
-    rec << "class=" << meta.size_class << " target_n=" << target << " threads=" << meta.threads;
+    {
+        static const int procs_choice[] = {64, 64, 64, 64, 64, 64, 64, 64, 1, 2, 3, 7, 16, 19};
+        meta.procs = o.allow_threads ? procs_choice[t.below(14)] : 64;
+        if (o.xprocs) meta.procs = atoi(o.xprocs->c_str());
+        g_fake_procs = meta.procs;
+    }
+    rec << "class=" << meta.size_class << " target_n=" << target << " threads=" << meta.threads << " procs=" << meta.procs;
     if constexpr (std::is_floating_point_v<K>) rec << " scale=2^" << lat.exp2;
 
     // ---- start
@@ -550,12 +612,17 @@ std::vector<K> gen_keys(TapeReader &t, const GenOpts &o, KeyMeta &meta) {
         while (kmax < lat.width_bits && ((i128) 1 << kmax) <= span + 2) ++kmax;
         unsigned k = 2 + (unsigned) t.below(kmax - 1); // 2 .. kmax
         i128 top = m.front() + ((i128) 1 << k) - 2 + ((i128) t.below(3) - 1);
-        unsigned mode = (unsigned) t.below(3);
-        if (top > m.front() && top <= lat.hi) {
-            while (m.size() > 1 && m.back() >= top - (mode == 1 ? 1 : 0)) m.pop_back();
+        unsigned mode = (unsigned) t.below(4);
+        size_t pre = eps + 3 + t.below(eps + 4);
+        if (top > m.front() + 1 && top <= lat.hi) {
+            while (m.size() > 1 && m.back() >= top - (mode == 1 || mode == 3 ? 1 : 0)) m.pop_back();
             if (mode == 0) m.push_back(top);
             else if (mode == 1) m.push_back(top - 1);
-            else m.push_back(top), m.push_back(top);
+            else if (mode == 2) m.push_back(top), m.push_back(top);
+            else { // the predecessor value repeated more than epsilon+2 times, then the edge key: a segment starts exactly on the edge
+                for (size_t i = 0; i < pre; ++i) m.push_back(top - 1);
+                m.push_back(top);
+            }
             rec << " POW2EDGE(k=" << k << ",mode=" << mode << ")";
             meta.pow2_edge = true;
         }
@@ -567,10 +634,14 @@ std::vector<K> gen_keys(TapeReader &t, const GenOpts &o, KeyMeta &meta) {
         i128 span = m.back() - m.front();
         uint64_t maxmult = (uint64_t) std::min<i128>(span / M + 1, (i128) 1 << 40);
         i128 top = m.front() + M * (i128) (1 + t.below(maxmult)) + ((i128) t.below(3) - 1);
-        if (top > m.front() && top <= lat.hi) {
-            while (m.size() > 1 && m.back() >= top) m.pop_back();
+        bool with_run = t.chance(1, 2);
+        size_t pre = eps + 3 + t.below(eps + 4);
+        if (top > m.front() + 1 && top <= lat.hi) {
+            while (m.size() > 1 && m.back() >= top - (with_run ? 1 : 0)) m.pop_back();
+            if (with_run)
+                for (size_t i = 0; i < pre; ++i) m.push_back(top - 1);
             m.push_back(top);
-            rec << " SPANEDGE(M=" << o.span_multiple_edge << ")";
+            rec << " SPANEDGE(M=" << o.span_multiple_edge << (with_run ? ",run" : "") << ")";
         }
     }
 
@@ -628,6 +699,8 @@ std::vector<K> gen_keys(TapeReader &t, const GenOpts &o, KeyMeta &meta) {
         keys = keys_from_text<K>(*o.xkeys);
         n = keys.size();
         if (o.xthreads) meta.threads = atoi(o.xthreads->c_str());
+        if (o.xprocs) meta.procs = atoi(o.xprocs->c_str());
+        g_fake_procs = meta.procs;
         meta.chunks = chunk_count(n, meta.threads);
         meta.seams.clear();
         for (size_t i = 1; i < meta.chunks; ++i) meta.seams.push_back(i * (n / meta.chunks));
